@@ -10,7 +10,7 @@ EXTRA_IMPORTS = dispenv.DISP_IMPORTS
 RULE = ('request texts: (a) sample of the member-alphabet product jsonrpc(5) x id(13) x method(12) x params(15); arrays of 0..4 '
         '(quick) / 0..6 (thorough) mostly-valid elements; scalars; containers nested to 64 levels; (b) non-JSON texts: truncations '
         'at every token boundary, garbage, BOM, trailing data, NaN/Infinity, lone surrogate; (c) integer literals of 1..20000 digits '
-        'at top level, as id, inside params; each x dispatcher kind (sync / async / async serving plain functions) x max_batch_size in {None,0,1,n-1,n,n+1} x method '
+        'at top level, as id, inside params; (d) batches both over the size limit and malformed (entry that is no request, repeated id) at limits 1, n-1, n; each x dispatcher kind (sync / async / async serving plain functions) x max_batch_size in {None,0,1,n-1,n,n+1} x method '
         'behaviours (returns / raises protocol error / raises other). distinct = distinct (text, kind, max_batch_size); non-trivial '
         '= the text parses to an object or a non-empty array (is not rejected at parse time)')
 EXHAUSTIVE = {'quick': False, 'thorough': False}
@@ -54,7 +54,13 @@ def generate(seed, tier):
             cases.append({'text': t, 'async': 'plain', 'max_batch': None})
         if len(cases) % 3 == 1:
             cases.append({'text': t, 'async': 'wrapped', 'max_batch': None})
+    cases += targeted()
     return dispenv.with_variants(cases, 9)
+
+
+def targeted():
+    """Cases kept whole by every consumer of this corpus (C11 samples the rest): the size limit against malformed batches."""
+    return [{'text': t, 'async': is_async, 'max_batch': mb} for t, mb in corpus.oversize_malformed() for is_async in (False, True)]
 
 
 def cfg_of(case):
